@@ -61,6 +61,23 @@ add("C10", "exploration",
     "Trusted: codec_ref.rs written from the documented layouts (shares no code with rln::utils).",
     "round-trip and differential property testing against an independent codec", "DESIGN.md#c10")
 
+PIPE_NOTE = "Trusted: reference Poseidon/Keccak (self-tested), the ideal tree model, the independent codec; Groth16 soundness (a mutated proof/value or an unsatisfied witness does not verify)."
+add("C01", "exploration",
+    "Generated (secret, index incl. the right half and both ends, limit incl. 1 and 2^16, message id incl. 0 and limit-1, external nullifier, signal incl. empty/long) x generated tree histories around the prover's leaf x four proving entry points (tree state, supplied witness, raw prove with an independently assembled witness, externally computed witness vector from circom's own generator); every message must be accepted by verify, verify_rln_proof and verify_with_roots ([root], [r1,root,r2], empty set) and carry exactly the model's root/x/y/nullifier. Each case costs one Groth16 proof, so the sample is hundreds (quick) to thousands (thorough) of points, weighted to the regions the suite never reaches.",
+    PIPE_NOTE + " Entry point 4 needs node (refwit.js); without it the check exits 2.", "property-based testing of the prove/verify round trip against an independent value oracle", "DESIGN.md#c01")
+add("C02", "exploration",
+    "Pool of accepted messages x field-level modifications (each public value +-1 / swapped / zero / random / taken from another message, every proof bit, signal and declared-length changes, root sets with/without the root and near-misses) on all three verifiers, plus verifier-tree changes after proving and restoration; an independent acceptability predicate (byte identity of proof+values, Keccak_ref(signal)=x, root condition) must coincide with the verdict in both directions.",
+    PIPE_NOTE, "metamorphic / mutation-based property testing with an independent acceptance predicate", "DESIGN.md#c02")
+add("C05", "exploration",
+    "Generated 46-element input assignments (limb-boundary, near-p, near-p/2, boundary-weighted and uniform values; messageId/limit inside and around the circuit's range) evaluated by zerokit's graph evaluator and by circom's own generated witness calculator (frozen rln.wasm + witness_calculator.js under node): all 5844 signals must be equal for every assignment the reference accepts; repeated evaluation and generated orders of the named inputs must not matter.",
+    "Trusted: node 20 + the frozen reference generator in /verif/refwit (the generator the property names). Exit 2 if node is unavailable.", "differential property testing against the reference witness generator", "DESIGN.md#c05")
+add("C12", "exploration",
+    "Generated proving requests, valid and invalid by class (mid = limit, mid > limit, mid or limit-mid outside the 16-bit range, limit 0, mid p-1, index >= capacity / usize::MAX, path length 0/1/19/21, non-binary direction values, mismatching vector lengths, truncation at any byte, trailing bytes, declared signal length longer/shorter/huge, random bytes) on generate_rln_proof, generate_rln_proof_with_witness and prove; outcome must be Err, or Ok with a message that verification accepts; panics are violations; valid requests must succeed. The reference generator labels each witness-level request satisfiable/unsatisfiable.",
+    PIPE_NOTE, "property-based robustness testing with class-based invalid-input generators and a verify-after-prove oracle", "DESIGN.md#c12")
+add("C13", "exploration",
+    "Byte strings derived from accepted messages for verify, verify_rln_proof, verify_with_roots (both buffers) and recover_id_secret (both buffers): every truncation length of one message (enumerated) and generated truncations of others, inconsistent/huge declared signal lengths, random field content, random strings, single bit flips, trailing bytes, arbitrary root buffers, and every v+k*p alias of every public value; never a panic, true only for the canonical bytes of an accepted message (independent predicate), recovery output empty or one canonical element.",
+    PIPE_NOTE, "mutation-based fuzzing from golden messages with an independent acceptance predicate (proptest; libFuzzer target planned for the thorough tier)", "DESIGN.md#c13")
+
 ALL = [f"C{i:02d}" for i in range(1, 21)]
 PENDING_REASON = "check not built yet in this revision of /verif (planned, see DESIGN.md section 2); not claimed until its machinery exists"
 manifest = {
